@@ -12,29 +12,69 @@ package action
 //@   ensures[C04]   abs(val(amount)*basisPoints) >= 2^256 ==> err != nil
 //@   ensures[base]  !isnil(result)
 
-// One fee transfer and the (at most five) transfers of a fee action, applied in list order.
-//@ macro payAt(b, from, fees, j) = ite(j < len(fees), move(b, from, fees[j].Recipient, fees[j].Amount[0].Denom, val(fees[j].Amount[0].Amount)), b)
-//@ macro pay5(b, from, fees) = payAt(payAt(payAt(payAt(payAt(b, from, fees, 0), from, fees, 1), from, fees, 2), from, fees, 3), from, fees, 4)
+// Ledger effect of a list of (recipient, one-coin amount) transfers from `from`, applied in list order:
+// payUpTo(b, from, fees, n) applies the first n (n <= 5) of them to ledger b.
+//@ macro payAtN(b, from, fees, j, n) = moveIf(j < n, b, from, fees[j].Recipient, fees[j].Amount[0].Denom, val(fees[j].Amount[0].Amount))
+//@ macro payUpTo(b, from, fees, n) = payAtN(payAtN(payAtN(payAtN(payAtN(b, from, fees, 0, n), from, fees, 1, n), from, fees, 2, n), from, fees, 3, n), from, fees, 4, n)
+//@ macro pay5(b, from, fees) = payUpTo(b, from, fees, len(fees))
 
-// Entry k of the fee list, when it yields a positive fee, is the rank5(k)-th transfer: to the decoded
-// recipient, one coin of the transfer denom, of exactly feeOf(A, entry).
-//@ macro entryOK(A, fs, denom, res, k) = k < len(fs) && feeOf(A, fs[k]) > 0 ==>
-//@     res.Values[rank5(A, fs, k)].Recipient == decodeAddr(fs[k].Recipient) &&
-//@     len(res.Values[rank5(A, fs, k)].Amount) == 1 &&
-//@     res.Values[rank5(A, fs, k)].Amount[0].Denom == denom &&
-//@     val(res.Values[rank5(A, fs, k)].Amount[0].Amount) == feeOf(A, fs[k])
+// Ledger effect the property demands of a fee action on amount A in denom d: entry j (j < i) pays
+// feeOf(A, entry) to its decoded recipient when that is positive, in list order.
+//@ macro feePayAtN(b, A, d, fs, j, i) = moveIf(j < i && j < len(fs) && feeOf(A, fs[j]) > 0, b, core.ModuleAddress, decodeAddr(fs[j].Recipient), d, feeOf(A, fs[j]))
+//@ macro feePayUpTo(b, A, d, fs, i) = feePayAtN(feePayAtN(feePayAtN(feePayAtN(feePayAtN(b, A, d, fs, 0, i), A, d, fs, 1, i), A, d, fs, 2, i), A, d, fs, 3, i), A, d, fs, 4, i)
+//@ macro feePay5(b, A, d, fs) = feePayUpTo(b, A, d, fs, len(fs))
+//@ macro sumAtN(A, fs, j, i) = ite(j < i && j < len(fs), feeOf(A, fs[j]), 0)
+//@ macro sumUpTo(A, fs, i) = sumAtN(A, fs, 0, i) + sumAtN(A, fs, 1, i) + sumAtN(A, fs, 2, i) + sumAtN(A, fs, 3, i) + sumAtN(A, fs, 4, i)
+//@ macro posAtN(A, fs, j, i) = ite(j < i && j < len(fs) && feeOf(A, fs[j]) > 0, 1, 0)
+//@ macro nposUpTo(A, fs, i) = posAtN(A, fs, 0, i) + posAtN(A, fs, 1, i) + posAtN(A, fs, 2, i) + posAtN(A, fs, 3, i) + posAtN(A, fs, 4, i)
+
+//@ macro oneCoinAt(vals, j) = j < len(vals) ==> len(vals[j].Amount) == 1
+//@ macro oneCoin5(vals) = oneCoinAt(vals, 0) && oneCoinAt(vals, 1) && oneCoinAt(vals, 2) && oneCoinAt(vals, 3) && oneCoinAt(vals, 4)
+//@ macro mulOvfAtN(A, fs, j, i) = j < i && mulOvfAt(A, fs, j)
+//@ macro mulOvfUpTo(A, fs, i) = mulOvfAtN(A, fs, 0, i) || mulOvfAtN(A, fs, 1, i) || mulOvfAtN(A, fs, 2, i) || mulOvfAtN(A, fs, 3, i) || mulOvfAtN(A, fs, 4, i)
 
 //@ func (c *FeeController) ComputeFeesToDistribute(transferAmount, transferDenom, feesInfo) (result, err)
 //@   requires[base] !isnil(transferAmount) && val(transferAmount) >= 0 && validDenom(transferDenom)
 //@   requires[base] validFees(feesInfo)
-//@   loop 0 unroll 5
 //@   letold A = val(transferAmount)
+//@   loop 0 invariant[base] 0 <= idx && idx <= len(feesInfo) && fees != nil && !isnil(fees.Total)
+//@   loop 0 invariant[base] len(fees.Values) == nposUpTo(A, feesInfo, idx)
+//@   loop 0 invariant[base] oneCoin5(fees.Values)
+//@   loop 0 invariant[C04]  !mulOvfUpTo(A, feesInfo, idx)
+//@   loop 0 invariant[C04]  val(fees.Total) == sumUpTo(A, feesInfo, idx)
+//@   loop 0 invariant[C04]  payUpTo(bank, core.ModuleAddress, fees.Values, len(fees.Values)) == feePayUpTo(bank, A, transferDenom, feesInfo, idx)
 //@   ensures[base]  err == nil ==> result != nil && !isnil(result.Total) && len(result.Values) <= 5
+//@   ensures[base]  err == nil ==> oneCoin5(result.Values)
 //@   ensures[C04]   err == nil ==> val(result.Total) == sum5(A, feesInfo)
 //@   ensures[C04]   err == nil ==> len(result.Values) == npos5(A, feesInfo)
-//@   ensures[C04]   err == nil ==> entryOK(A, feesInfo, transferDenom, result, 0)
-//@   ensures[C04]   err == nil ==> entryOK(A, feesInfo, transferDenom, result, 1)
-//@   ensures[C04]   err == nil ==> entryOK(A, feesInfo, transferDenom, result, 2)
-//@   ensures[C04]   err == nil ==> entryOK(A, feesInfo, transferDenom, result, 3)
-//@   ensures[C04]   err == nil ==> entryOK(A, feesInfo, transferDenom, result, 4)
 //@   ensures[C04]   mulOvf5(A, feesInfo) ==> err != nil
+//@   ensures[C04]   err == nil ==> pay5(bank, core.ModuleAddress, result.Values) == feePay5(bank, A, transferDenom, feesInfo)
+
+//@ func (c *FeeController) executeAction(ctx, fees) (err)
+//@   requires[base] c != nil && c.BankKeeper != nil
+//@   requires[base] len(fees) <= 5
+//@   requires[base] oneCoin5(fees)
+//@   loop 0 unroll 5
+//@   modifies bank
+//@   ensures[C04]   err == nil ==> bank == pay5(old(bank), core.ModuleAddress, fees)
+
+// The fee attributes a packet carries (cached value of the Any, as the codec unpacked it).
+//@ macro feeAttrsOf(p) = cast(p.Action.Attributes.cachedValue, "*types/controller/action.FeeAttributes")
+//@ macro isFeeAttrs(p) = p.Action != nil && p.Action.Attributes != nil && istype(p.Action.Attributes.cachedValue, "*types/controller/action.FeeAttributes") && feeAttrsOf(p) != nil
+
+
+//@ func (c *FeeController) HandlePacket(ctx, packet) (err)
+//@   requires[base] c != nil && c.BankKeeper != nil && c.eventService != nil
+//@   requires[base] packet != nil && packet.TransferAttributes != nil
+//@   requires[base] !isnil(packet.TransferAttributes.destinationCoin.Amount) && val(packet.TransferAttributes.destinationCoin.Amount) > 0 && validDenom(packet.TransferAttributes.destinationCoin.Denom)
+//@   letold ta = packet.TransferAttributes
+//@   letold A = val(packet.TransferAttributes.destinationCoin.Amount)
+//@   letold D = packet.TransferAttributes.destinationCoin.Denom
+//@   letold fs = feeAttrsOf(packet).FeesInfo
+//@   modifies bank, packet.TransferAttributes.destinationCoin
+//@   ensures[C04]   err == nil ==> isFeeAttrs(packet) && validFees(fs)
+//@   ensures[C04]   err == nil ==> sum5(A, fs) < A && !isnil(ta.destinationCoin.Amount) && val(ta.destinationCoin.Amount) == A - sum5(A, fs)
+//@   ensures[C04]   err == nil ==> bank == feePay5(old(bank), A, D, fs)
+//@   ensures[C04]   err == nil ==> ta.destinationCoin.Denom == D
+//@   ensures[C04]   isFeeAttrs(packet) && validFees(fs) && (sum5(A, fs) >= A || mulOvf5(A, fs)) ==> err != nil && bank == old(bank) && ta.destinationCoin == old(ta.destinationCoin)
+//@   ensures[C04]   !isFeeAttrs(packet) ==> err != nil && bank == old(bank) && ta.destinationCoin == old(ta.destinationCoin)
